@@ -123,18 +123,121 @@ pub fn check_literal(_ctx: &Ctx, v: &serde_json::Value) -> CaseReport {
                 rep.fail("distinct-names-same-file", format!("{a:?} and {b:?} both map to {:?}", string_to_filename(a, ".yml")));
             }
         }
+        Some("fixture-ir") => {
+            let scratch = Scratch::new(&_ctx.work);
+            compare_ir(&mut rep, &_ctx.repo.join(v["fixture"].as_str().unwrap_or("")), &BuildOpts::default(), scratch.path());
+        }
         _ => rep.fail("bad-literal", "unknown kind"),
     }
     rep.evals = 1;
     rep
 }
 
-pub fn pure_parts() -> Vec<Part> {
+pub fn parts() -> Vec<Part> {
     vec![
+        Part { name: "builds", genome_len: 1500, cases_quick: 150, cases_thorough: 4000, threads: 8, max_shrink_iters: 100, check: Box::new(check_build), remote: None },
         Part { name: "names", genome_len: 40, cases_quick: 200_000, cases_thorough: 5_000_000, threads: 16, max_shrink_iters: 2000, check: Box::new(check_names), remote: None },
         Part { name: "kernloc", genome_len: 24, cases_quick: 50_000, cases_thorough: 2_000_000, threads: 16, max_shrink_iters: 2000, check: Box::new(check_kernloc), remote: None },
     ]
 }
 
-pub const RULE: &str = "names: pairs of distinct glyph names built from an alphabet of case variants, reserved characters, '%XX' / '^N' look-alikes, device names and Unicode (3/4 related by one or two edits: case flip, escaped spelling, case-code suffix, insert/delete/replace); kernloc: pairs of distinct normalized locations on 1-3 axes, 2/3 differing by a small step (2^-14 .. 0.1) on one axis; oracle: distinct inputs map to distinct file names (also ASCII case-folded for names). non-trivial = a name outside [a-z0-9._] / locations closer than 0.05; distinct = hash of the pair";
+pub const RULE: &str = "builds: SynthFont (all facets, glyph names incl. case variants / reserved characters / device names) x options, built without IR and (through hook H3, which returns both contexts) with IR in a fresh directory: bytes equal, persisted font equal, every FE item (static metadata, glyph orders, global metrics, kerning locations/instances, features, glyphs, anchors) and BE glyph / gvar fragment read back == in-memory value, distinct ids never share a file; names: pairs of distinct glyph names built from an alphabet of case variants, reserved characters, '%XX' / '^N' look-alikes, device names and Unicode (3/4 related by one or two edits: case flip, escaped spelling, case-code suffix, insert/delete/replace); kernloc: pairs of distinct normalized locations on 1-3 axes, 2/3 differing by a small step (2^-14 .. 0.1) on one axis; oracle: distinct inputs map to distinct file names (also ASCII case-folded for names). non-trivial = a name outside [a-z0-9._] / locations closer than 0.05; distinct = hash of the pair";
 pub const ASSUMPTIONS: &[&str] = &["case-insensitive collisions are checked for ASCII case folding only (Unicode case folding of the file system is out of scope)"];
+
+// ---------------------------------------------------------------- builds with and without IR emission
+use crate::props::c03::{classify, describe};
+use crate::props::c05::gen_opts;
+use crate::synth::build::{compile_path, BuildOpts, Scratch};
+use crate::synth::model::{Profile, SynthFont};
+use crate::synth::ufo;
+use fontir::orchestration::Persistable;
+use std::collections::BTreeMap;
+
+fn profile() -> Profile {
+    Profile { min_axes: 0, max_axes: 2, max_glyphs: 12, min_glyphs: 2, outlines: true, cubic: true, components: 4, transforms: true, mixed: true, sparse: 2,
+        order_variety: true, non_export: true, metrics_class_a: true, vertical: true, half_coords: true, maps: true, awkward_axes: false, multi_codepoints: true, ps_names: false, anchors: true, kerning: true, instances: true, flat_maps: false, point_axis: true, weird_names: true }
+}
+
+fn ser<T: Persistable>(v: &T) -> Vec<u8> { let mut b = Vec::new(); v.write(&mut b); b }
+
+fn read_back<T: Persistable + PartialEq + std::fmt::Debug>(rep: &mut CaseReport, what: &str, path: &Path, in_memory: &T) {
+    match std::fs::File::open(path) {
+        Err(e) => rep.fail("ir-item-not-written", format!("{what}: {} ({e})", path.display())),
+        Ok(mut f) => {
+            let r = std::panic::catch_unwind(std::panic::AssertUnwindSafe(|| T::read(&mut f)));
+            match r {
+                Err(_) => rep.fail(format!("ir-item-unreadable:{}", what.split('(').next().unwrap_or(what)), format!("{what}: {}", path.display())),
+                Ok(v) => if &v != in_memory { rep.fail(format!("ir-item-reads-back-different:{}", what.split('(').next().unwrap_or(what)), format!("{what} at {}: on disk {:.300?} in memory {:.300?}", path.display(), format!("{v:?}"), format!("{in_memory:?}"))); }
+            }
+        }
+    }
+}
+
+pub fn check_build(ctx: &Ctx, genome: &[u16]) -> CaseReport {
+    let mut rep = CaseReport::default();
+    let mut g = Gen::new(genome);
+    let mut og = g.fork(12);
+    let opts = if og.chance(1, 2) { BuildOpts::default() } else { gen_opts(&mut og) };
+    let f = SynthFont::decode(&genome[12.min(genome.len())..], &profile());
+    rep.key = f.hash() ^ fnv_str(&opts.label());
+    classify(&mut rep, &f);
+    rep.sample = Some(json!({"options": opts.label(), "font": describe(&f)}));
+    let files = ufo::render(&f);
+    if ctx.dry { for (k, v) in files { rep.artifacts.push((k, v.into_bytes())); } return rep; }
+    let scratch = Scratch::new(&ctx.work);
+    let ds = ufo::write_tree(scratch.path(), &files).expect("write tree");
+    let n_kern = compare_ir(&mut rep, &ds, &opts, scratch.path());
+    let plainname = |s: &str| s.chars().all(|c| c.is_ascii_lowercase() || c.is_ascii_digit() || c == '.' || c == '_') && !s.starts_with('.');
+    rep.nontrivial = f.glyphs.iter().any(|g| !plainname(&g.name)) || n_kern >= 2;
+    if n_kern >= 2 { rep.class("several-kerning-instances"); }
+    if f.glyphs.iter().any(|g| g.name.chars().any(|c| "\"*?:%^".contains(c))) { rep.class("glyph-name-with-reserved-char"); }
+    if !rep.failures.is_empty() { for (k, v) in &files { rep.artifacts.push((k.clone(), v.clone().into_bytes())); } }
+    rep
+}
+
+/// build `ds` without and with IR emission (fresh dir under `scratch`) and compare; returns the number of kerning instances
+pub fn compare_ir(rep: &mut CaseReport, ds: &Path, opts: &BuildOpts, scratch: &Path) -> usize {
+    let rep: &mut CaseReport = rep;
+    let files: BTreeMap<String, String> = BTreeMap::new();
+    let plain = compile_path(ds, opts);
+    let ir_dir = scratch.join("ir");
+    let with_ir = BuildOpts { ir_dir: Some(ir_dir.clone()), ..opts.clone() };
+    let built = std::panic::catch_unwind(std::panic::AssertUnwindSafe(|| -> Result<_, String> {
+        let input = fontc::Input::new(ds).map_err(|e| e.to_string())?;
+        let source = input.create_source().map_err(|e| e.to_string())?;
+        fontc::verif::build(source, &with_ir.to_options()).map_err(|e| e.to_string())
+    }));
+    let (fe, be) = match (plain.as_ref(), built) {
+        (Ok(_), Ok(Ok(c))) => c,
+        (Err(_), Ok(Err(_))) => { rep.discard = true; rep.class("source-rejected"); return 0; }
+        (Ok(_), Ok(Err(e))) => { rep.fail("emit-ir-changes-the-outcome", format!("builds without IR, fails with IR: {e}")); for (k, v) in &files { rep.artifacts.push((k.clone(), v.clone().into_bytes())); } return 0; }
+        (Err(e), Ok(Ok(_))) => { rep.fail("emit-ir-changes-the-outcome", format!("fails without IR ({}), builds with IR", e.text())); return 0; }
+        (_, Err(_)) => { rep.fail("emit-ir-build-panics", crate::run::LAST_PANIC.with(|p| p.borrow().clone())); for (k, v) in &files { rep.artifacts.push((k.clone(), v.clone().into_bytes())); } return 0; }
+    };
+    let plain = plain.unwrap();
+    let with = be.font.get().get().to_vec();
+    rep.evals += 1;
+    if with != plain { rep.fail(format!("emit-ir-changes-the-font:{}", crate::props::c01::differing_table(&plain, &with)), crate::props::c01::first_difference(&plain, &with)); }
+    match std::fs::read(fontbe::paths::Paths::target_file(&ir_dir, &fontbe::orchestration::WorkId::Font)) { Ok(b) => if b != with { rep.fail("persisted-font-differs-from-returned-font", format!("{} vs {} bytes", b.len(), with.len())); }, Err(e) => rep.fail("ir-item-not-written", format!("font: {e}")) }
+    // every FE item reads back equal; distinct ids have distinct files
+    let mut paths: BTreeMap<std::path::PathBuf, String> = BTreeMap::new();
+    let mut claim = |rep: &mut CaseReport, id: String, p: std::path::PathBuf| { if let Some(prev) = paths.insert(p.clone(), id.clone()) { rep.fail("distinct-items-same-file", format!("{prev} and {id} -> {}", p.display())); } };
+    use fontir::paths::Paths as FeP;
+    let fid = |id: &FeWorkId| FeP::target_file(&ir_dir, id);
+    read_back(rep, "StaticMetadata", &fid(&FeWorkId::StaticMetadata), &*fe.static_metadata.get());
+    read_back(rep, "GlyphOrder", &fid(&FeWorkId::GlyphOrder), &*fe.glyph_order.get());
+    read_back(rep, "PreliminaryGlyphOrder", &fid(&FeWorkId::PreliminaryGlyphOrder), &*fe.preliminary_glyph_order.get());
+    read_back(rep, "GlobalMetrics", &fid(&FeWorkId::GlobalMetrics), &*fe.global_metrics.get());
+    if let Some(k) = fe.kerning_locations.try_get() { read_back(rep, "KerningLocations", &fid(&FeWorkId::KerningLocations), &*k); }
+    if let Some(k) = fe.features.try_get() { read_back(rep, "Features", &fid(&FeWorkId::Features), &*k); }
+    for (id, glyph) in fe.glyphs.all() { let p = fid(&id); claim(rep, format!("{id:?}"), p.clone()); read_back(rep, &format!("Glyph({})", glyph.name), &p, &*glyph); rep.evals += 1; }
+    for (id, a) in fe.anchors.all() { let p = fid(&id); claim(rep, format!("{id:?}"), p.clone()); read_back(rep, "Anchors()", &p, &*a); rep.evals += 1; }
+    for (id, k) in fe.kerning_at.all() { let p = fid(&id); claim(rep, format!("{id:?}"), p.clone()); read_back(rep, "KerningInstance()", &p, &*k); rep.evals += 1; }
+    // BE fragments
+    use fontbe::paths::Paths as BeP;
+    for (id, gl) in be.glyphs.all() { if let fontbe::orchestration::AnyWorkId::Be(bid) = &id { let p = BeP::target_file(&ir_dir, bid); claim(rep, format!("{id:?}"), p.clone());
+        match std::fs::File::open(&p) { Ok(mut fh) => { let v = fontbe::orchestration::Glyph::read(&mut fh); if ser(&v) != ser(&*gl) { rep.fail("ir-item-reads-back-different:BeGlyph", format!("{id:?}")); } } Err(e) => rep.fail("ir-item-not-written", format!("{id:?}: {e}")) } rep.evals += 1; } }
+    // gvar fragments hold hash-ordered sets and have no PartialEq: there is no sound equality for them here (existence of the file is checked)
+    for (id, _gv) in be.gvar_fragments.all() { if let fontbe::orchestration::AnyWorkId::Be(bid) = &id { let p = BeP::target_file(&ir_dir, bid); claim(rep, format!("{id:?}"), p.clone()); if !p.exists() { rep.fail("ir-item-not-written", format!("{id:?}")); } } }
+    fe.kerning_at.all().len()
+}
